@@ -12,7 +12,7 @@ SOLVER = {'functions_encoded': ['compile_code on split and merged sources (execu
 HDR = base.witness.HDR
 
 ASSUMPTIONS = [
-    "each multi-module program {'' : main, m1: .., m2: ..} is compared (IC10 vs IC10, all inputs, z3) with the single file obtained mechanically (stdlib ast): library top-level code first in import order, every library-level name N of module alias A renamed to A_N, `A.f(...)` calls renamed to `A_f(...)`, `if __name__ == \"__main__\"` blocks of libraries dropped; the multi-module output is also compared with the dialect interpreter, which gives each module its own globals",
+    "each multi-module program {'' : main, m1: .., m2: ..} is compared (IC10 vs IC10, all inputs, z3) with the single file obtained mechanically (stdlib ast): library top-level code first in import order, every library-level name N of module alias A renamed to A_N, `A.f(...)` calls renamed to `A_f(...)`, `if __name__ == \"__main__\"` blocks of libraries replaced by their else suite (if any); the multi-module output is also compared with the dialect interpreter, which gives each module its own globals",
     "labels are kept (remove_labels=False): with labels removed, equal function names in different modules hit the known label-substitution finding of C05",
     "same input / arithmetic model and generator gates as C01",
 ]
@@ -95,7 +95,15 @@ def merge(sources: dict) -> str:
     for name, alias in order:
         t = ast.parse(sources[name])
         names = module_level_names(t)
-        t.body = [st for st in t.body if not _is_main_guard(st) and not isinstance(st, (ast.Import, ast.ImportFrom))]
+        nb = []
+        for st in t.body:
+            if isinstance(st, (ast.Import, ast.ImportFrom)):
+                continue
+            if _is_main_guard(st):
+                nb += list(st.orelse)  # the guard is false in an imported module: its else suite runs
+                continue
+            nb.append(st)
+        t.body = nb
         t = _Prefixer(names, alias + "_").visit(t)
         body += t.body
     aliases = {a for _, a in order}
@@ -273,6 +281,12 @@ def update(v):
 """,
 }
 
+# a library whose stand-alone guard has an else suite (code for the imported case)
+FIXED_GUARD_ELSE = {
+    "": HDR + "from library import m as lib\n\nwhile True:\n    yield_()\n    lib.update(d0.Setting)\n    db.Mode = 1\n",
+    "m": HDR + "\ngain = 1\n\ndef update(v):\n    db.Setting = v * gain\n    d1.Setting = gain + 10\n\nif __name__ == \"__main__\":\n    while True:\n        update(1)\nelse:\n    gain = 3\n    d2.Setting = 222\n",
+}
+
 FIXED_MULTI = {
     "": HDR + """from library import lib0
 from library import lib1 as other
@@ -336,7 +350,7 @@ def run(tier: str) -> int:
     rep.assumptions = ASSUMPTIONS
     known = harness.known_for(PROP)
     n = 150 if tier == "thorough" else 20
-    progs = [("fixed:two_libs", FIXED_MULTI, []), ("fixed:dead_constants", FIXED_DEAD_CONST, []), ("fixed:import_order", FIXED_IMPORT_ORDER, []), ("fixed:suffix_names_in_library", FIXED_SUFFIX_LIB, [])]
+    progs = [("fixed:two_libs", FIXED_MULTI, []), ("fixed:dead_constants", FIXED_DEAD_CONST, []), ("fixed:import_order", FIXED_IMPORT_ORDER, []), ("fixed:suffix_names_in_library", FIXED_SUFFIX_LIB, []), ("fixed:guard_else", FIXED_GUARD_ELSE, [])]
     for i in range(n):
         seed = harness.seed() * 9973 + i + 1
         srcs, feats = gen_multi(seed)
